@@ -23,7 +23,8 @@ func init() {
 		Assumptions: []string{"Metastore.Store returns true only if the row was inserted (checked for the four repo metastores by C13.store-result)", "design-intended error drops are listed by symbol: tryStore, loadLatestOrCreateIntermediateKey→createIntermediateKey fall-backs, getValidIntermediateKey"},
 		Tech:        "static analysis: guarded-by-condition + backward value slice + error-discipline (every err tested, non-nil edge reaches non-nil returns) on SSA",
 		NeedU1:      true,
-		Rules:       []func(*Ctx){ruleC02FreshKeyOnlyIfStored, ruleC02SuccessIsStoreBool, ruleC02RecordMatchesKey, ruleC02NothingCachedOnError, ruleC02ErrorsNotRemembered, ruleC02AcquireReleasePaired, ruleC01ProvenanceDecrypt, lockBalancedRule("C02", 3, lockDomSpec{pkgApp, "keyCache", "rw"}), ruleC08EveryHandoutCounted, ruleC02ErrorMeansNoRecord, ruleC13InsertOnly, ruleC13StoreResult, ruleC09HandoutRelease, ruleC13FieldFidelity, ruleC13KeyFidelity, ruleC01CallerBuffersImmutable, ruleC01LatestFetchedUnderOwnID, recoverReportsFailureRule("C02", pkgApp, pkgInt, pkgPersist, pkgKmsV1, pkgKmsV2, pkgDynV1, pkgDynV2)},
+		NeedU2:      true,
+		Rules:       []func(*Ctx){ruleC02FreshKeyOnlyIfStored, ruleC02SuccessIsStoreBool, ruleC02RecordMatchesKey, ruleC02NothingCachedOnError, ruleC02ErrorsNotRemembered, ruleC02AcquireReleasePaired, ruleC01ProvenanceDecrypt, lockBalancedRule("C02", 3, lockDomSpec{pkgApp, "keyCache", "rw"}), ruleC08EveryHandoutCounted, ruleC02ErrorMeansNoRecord, ruleC13InsertOnly, ruleC13StoreResult, ruleC09HandoutRelease, ruleC13FieldFidelity, ruleC13KeyFidelity, ruleC01CallerBuffersImmutable, ruleC01LatestFetchedUnderOwnID, recoverReportsFailureRule("C02", pkgApp, pkgInt, pkgPersist, pkgKmsV1, pkgKmsV2, pkgDynV1, pkgDynV2), ruleC13SidecarMetastoreWiring, ruleC18RegionSuffixResolvedOnEveryPath},
 	})
 }
 
